@@ -50,13 +50,13 @@ TSentFinal == /\ Is("sentfinal") /\ owed = 0 /\ Step /\ UNCHANGED <<owed, odd>>
 TPiece == /\ Is("piece") /\ owed = 0 /\ Step /\ UNCHANGED owed
           /\ Deliver(Cur.n)
 
-TReply == /\ Is("reply") /\ owed = 0 /\ Step /\ Owes
-          /\ ReadLine
+TReply == /\ Is("reply") /\ owed = 0 /\ Step
+          /\ ReadLine /\ Owes
           /\ Len(codes') = Len(codes) + 1 /\ codes'[Len(codes')] = Cur.code
           /\ LET st == ParseLine(cur, Lines(inbuf)[1]) IN st.text = Cur.text
 
-TDconn == /\ Is("dconn") /\ owed = 0 /\ Step /\ Owes
-          /\ daddr = 1 /\ DataConnect
+TDconn == /\ Is("dconn") /\ owed = 0 /\ Step
+          /\ daddr = 1 /\ DataConnect /\ Owes
 
 TDsent  == Is("dsent")  /\ owed = 0 /\ Step /\ UNCHANGED owed /\ DataSend(Cur.n)
 TDclose == Is("dclose") /\ owed = 0 /\ Step /\ UNCHANGED owed /\ DataClose
